@@ -578,6 +578,50 @@ func (vc *VC) oblQuery(o *Obl) string {
 	for _, s := range sks {
 		fmt.Fprintf(&sb, "(declare-const %s %s)\n", s.Op, s.S.String())
 	}
+	if len(sks) == 0 && vc.isBV() {
+		// a quantifier-free goal in bv mode: instantiate the hypotheses at the small literal offsets the goal adds to
+		// other terms (x + 3 suggests the instance k := 3 of a hypothesis about x + k) and at 0
+		seenL := map[string]bool{}
+		var lits []*Term
+		var walkL func(t *Term)
+		walkL = func(t *Term) {
+			if t.Op == "forall" || t.Op == "exists" || len(lits) >= 20 {
+				return
+			}
+			if t.Op == "bvadd" && len(t.Args) == 2 {
+				for _, a := range t.Args {
+					if v, ok := litIdx(a); ok && a.S.K == KBV && v >= 0 && v <= 64 && len(a.Args) == 0 && !seenL[a.String()] {
+						seenL[a.String()] = true
+						lits = append(lits, a)
+						if !seenL["zero"+a.S.Key()] {
+							seenL["zero"+a.S.Key()] = true
+							lits = append(lits, BVLit(big.NewInt(0), a.S.W))
+						}
+					}
+				}
+			}
+			for _, a := range t.Args {
+				walkL(a)
+			}
+		}
+		walkL(goal)
+		n := 0
+		for _, f := range vc.facts[:o.NFacts] {
+			if len(lits) == 0 {
+				break
+			}
+			if !hasQuant(f) {
+				continue
+			}
+			for _, inst := range instantiate(f, lits, 24, true) {
+				fmt.Fprintf(&sb, "(assert %s)\n", inst.String())
+				n++
+				if n > 400 {
+					break
+				}
+			}
+		}
+	}
 	if len(sks) > 0 || !vc.isBV() {
 		// besides the skolem constants themselves, instantiate at the additive index terms built from them
 		isSk := map[string]bool{}
